@@ -21,6 +21,12 @@ pub fn check(bc: &BuildCase, obs: &mut Obs) -> Result<(), Fail> {
     let vals = built.values();
     let text = catch(|| built.qr.to_str()).map_err(|p| Fail { sig: panic_sig(&p), msg: format!("to_str panicked: {} ({:?})", p, bc) })?;
     check_text(&text, &vals, n, bc)?;
+    if bc.hash() % 4 == 1 {
+        // the same symbol held in a value that contained a larger symbol before (clone_from): same rendering
+        let t2 = catch(|| crate::fq::recycled_copy(&built.qr).to_str()).map_err(|p| Fail { sig: panic_sig(&p), msg: format!("to_str on a clone_from copy panicked: {} ({:?})", p, bc) })?;
+        check_text(&t2, &vals, n, bc).map_err(|f| Fail { sig: format!("recycled_copy:{}", f.sig), msg: format!("rendering of a clone_from copy (destination held a version-40 symbol): {}", f.msg) })?;
+        obs.label("recycled_copy_rendered");
+    }
     let lines: Vec<&str> = text.split('\n').collect();
     obs.label(&format!("band:{}", crate::gens::version_band(version_from_size(n).unwrap_or(1))));
     obs.nontrivial(bc.hash());
